@@ -322,6 +322,15 @@ def split_fld(p):
     return out
 
 
+def _le(x, y):
+    """x <= y on the current path?  cheap syntactic test first, then the solver"""
+    if _known_le(x, y):
+        return True
+    if _isinstance(x, builtins.int) and _isinstance(y, builtins.int):
+        return False
+    return core.prove(x <= y)
+
+
 def slice_rope(r, a, b):
     L = sx_len(r)
     a, b = _norm_bounds(L, a, b)
@@ -332,21 +341,21 @@ def slice_rope(r, a, b):
         n = _plen(p)
         end = off + n
         # entirely before a or after b ?
-        if _known_le(end, a):
+        if _le(end, a):
             off = end
             continue
-        if _known_le(b, off):
+        if _le(b, off):
             break
         k = p[0]
+        from_start = _le(a, off)
+        to_end = _le(end, b)
         if k == 'view':
-            lo = clampi(a - off, 0, n)
-            hi = clampi(b - off, 0, n)
+            lo = 0 if from_start else clampi(a - off, 0, n)
+            hi = n if to_end else clampi(b - off, 0, n)
             out.append(('view', p[1], p[2] + _zi(lo), p[2] + _zi(hi)))
         else:
-            lo = clampi(a - off, 0, n)
-            hi = clampi(b - off, 0, n)
-            lo = core.concrete(lo, cap=4096)
-            hi = core.concrete(hi, cap=4096)
+            lo = 0 if from_start else core.concrete(clampi(a - off, 0, n), cap=4096)
+            hi = n if to_end else core.concrete(clampi(b - off, 0, n), cap=4096)
             if hi > lo:
                 if k == 'lit':
                     out.append(('lit', p[1][lo:hi]))
